@@ -11,6 +11,8 @@ fn jf2<A, B>(a: A, b: B) -> (A, B) { ev("j.x.a", &2usize); (a, b) }
 fn jf3<A, B, C>(a: A, b: B, c: C) -> (A, B, C) { ev("j.x.a", &3usize); (a, b, c) }
 fn jl2<A, B>(a: impl FnOnce() -> A, b: impl FnOnce() -> B) -> (A, B) { ev("j.x.a", &2usize); let vb = b(); let va = a(); (va, vb) }
 fn jl3<A, B, C>(a: impl FnOnce() -> A, b: impl FnOnce() -> B, c: impl FnOnce() -> C) -> (A, B, C) { ev("j.x.a", &3usize); let vc = c(); let vb = b(); let va = a(); (va, vb, vc) }
+// lazy joiner that needs closures owning their captures (like a thread pool): `FnOnce() -> T + Send + 'static`
+fn js2<A, B>(a: impl FnOnce() -> A + Send + 'static, b: impl FnOnce() -> B + Send + 'static) -> (A, B) { ev("j.x.a", &2usize); let vb = b(); let va = a(); (va, vb) }
 macro_rules! jl { ($a:expr, $b:expr) => { jl2($a, $b) }; ($a:expr, $b:expr, $c:expr) => { jl3($a, $b, $c) } }
 // async + lazy: every branch arrives as a zero-argument closure that returns the branch future
 macro_rules! jla {
@@ -109,6 +111,25 @@ def closure_value_programs():
     return progs
 
 
+def owning_closure_programs():
+    """lazy_branches(true): the branch closure is `move || ..` — it OWNS what it captures (Copy locals, the previous step's values), so a
+    joiner may demand `Send + 'static` closures; explicit lazy_branches(true) on the thread-spawning macros is what they do anyway"""
+    progs = []
+    fmt = '\nformat!("{:?}", x)'
+    for mac in ("join", "try_join"):
+        is_try = mac == "try_join"
+        w = (lambda e: "Some(%s)" % e) if is_try else (lambda e: e)
+        op = "|>" if is_try else "->"
+        d = "{ let k = int(63); %s! { lazy_branches(true) custom_joiner(js2) %s %s |v: i32| { ev(\"0.0.f\", &v); v + k } ~%s |v: i32| { ev(\"0.1.f\", &v); v + k }, %s ~%s |v: i32| { ev(\"1.1.f\", &v); v * 2 + k } } }" % (mac, w("st(0, 1)"), op, op, w("st(4, 5)"), op)
+        body = "let k = int(63); ev(\"j.x.a\", &2usize); let b = st(4, 5); let a = (|v: i32| { ev(\"0.0.f\", &v); v + k })(st(0, 1)); ev(\"j.x.a\", &2usize); let b = (|v: i32| { ev(\"1.1.f\", &v); v * 2 + k })(b); let a = (|v: i32| { ev(\"0.1.f\", &v); v + k })(a);"
+        r = "{ %s %s }" % (body, "Some((a, b))" if is_try else "(a, b)")
+        progs.append(Prog("owning/%s" % mac, "let x = %s;%s" % (r, fmt), "let x = %s;%s" % (d, fmt), fp.offset_rows(), "Full", meta={"macro": mac, "dsl": d, "ref": r}))
+    for ds in ((1, 1), (2, 1), (2, 2), (1, 2, 3)):
+        for mac in ("join_spawn", "try_join_spawn", "spawn", "try_spawn"):
+            progs.append(make(mac, "lazy_branches(true)", None, "Proj", ds, rich=False, tag="explicit/"))
+    return progs
+
+
 def handler_programs(tier):
     """C13 under options: every handler kind behind each option that changes how a step is joined or transposed; in the async
     try macros transpose_results(true) (the only way to carry Option/Result-valued futures) switches to the sequential
@@ -170,7 +191,7 @@ def programs(tier):
             if "async" in mac and tier == "quick" and sum(ds) > 6:
                 continue
             progs.append(make(mac, opts, jn, cmp, ds, rich=(n <= 2 and cmp == "Full")))
-    progs += closure_value_programs()
+    progs += closure_value_programs() + owning_closure_programs()
     return progs
 
 
